@@ -124,6 +124,10 @@ impl Parse for FmtAttribute {
             args: input.parse_terminated(FmtArgument::parse, token::Comma)?,
         };
         parsed.args.pop_punct();
+        if parsed.args.is_empty() {
+            // `"lit",` is re-emitted before further arguments, which would double the comma.
+            parsed.comma = None;
+        }
         Ok(parsed)
     }
 }
